@@ -70,8 +70,8 @@ def _template(ctx, kind, side, exch):
     raise ValueError(kind)
 
 
-def h_session(ctx, n=3, kind='T1', side='long', exch='futures', fast=False, tf='1m', sym_from=1, c08_only=False, sym=None):
-    rows = S.sparse_rows(ctx, n, sym) if sym is not None else S.minute_rows(ctx, n, sym_from=sym_from)
+def h_session(ctx, n=3, kind='T1', side='long', exch='futures', fast=False, tf='1m', sym_from=1, c08_only=False, sym=None, gaps=()):
+    rows = S.sparse_rows(ctx, n, sym, gaps=list(gaps)) if sym is not None else S.minute_rows(ctx, n, sym_from=sym_from)
     T = _template(ctx, kind, side, exch)
     cfg = S.config_dict(exchange_type=exch, leverage=2, fee=0.001, balance=10000.0)
     rec = S.run_session(S.make_candles(rows), T, cfg, timeframe=tf, fast=fast)
@@ -191,6 +191,8 @@ def _jobs(tier):
         add(n=6, kind='T1', side='short', exch='futures', fast=True, tf='3m', sym=[2, 3])
         add(n=6, kind='T8', side='long', exch='futures', fast=True, tf='3m', sym=[1, 4])
         add(n=6, kind='T1', side='long', exch='futures', fast=True, tf='3m', sym=[3, 4])
+        add(n=6, kind='T1', side='long', exch='futures', fast=True, tf='3m', sym=[4], gaps=[4])
+        add(n=6, kind='T1', side='short', exch='futures', fast=True, tf='3m', sym=[5], gaps=[5])
         add(n=6, kind='T3', side='short', exch='futures', fast=True, tf='3m', sym=[4])
     return jobs
 
